@@ -45,11 +45,40 @@ type violation struct {
 	detail map[string]any
 }
 
+// wfPrefix: the longest well-formed prefix of a map history (the shrinker deletes calls; a
+// history that uses an iterator it has not opened is outside the property and is cut there)
+func wfPrefix(ops []imapx.Op) []imapx.Op {
+	open := map[int64]bool{}
+	for i, o := range ops {
+		switch o.K {
+		case "I":
+			if open[o.A] {
+				return ops[:i]
+			}
+			open[o.A] = true
+		case "H", "N":
+			if !open[o.A] {
+				return ops[:i]
+			}
+		case "C":
+			if !open[o.A] {
+				return ops[:i]
+			}
+			delete(open, o.A)
+		}
+	}
+	return ops
+}
+
 func runMap(c Case, s *hx.Sink) string {
 	var steps []string
 	open := 0
-	for i, ob := range imapx.RunGuarded(c.Ops, nil) {
-		o := c.Ops[i]
+	ops := wfPrefix(c.Ops)
+	if len(ops) < len(c.Ops) {
+		s.Count("map-history-cut-at-ill-formed-call")
+	}
+	for i, ob := range imapx.RunGuarded(ops, nil) {
+		o := ops[i]
 		if ob.Hung {
 			s.DirectViolation(c.ID, "a map call did not return", map[string]any{"op": i, "detail": ob.PanicMsg})
 			break
@@ -247,6 +276,9 @@ func goOut(ctx *callCtx, v int64, err error) string {
 // record: the call o has returned; out is its projected result
 func (r *lruRunner) record(o imapx.Op, out string) {
 	nodes, del, ref, ok := r.cache.VerifWalk()
+	if nodes > 1<<20 { // a cyclic list: keep the Gallina nat small, the bound below fails anyway
+		nodes, del = 1<<20, 0
+	}
 	if nodes > r.res.maxNodes {
 		r.res.maxNodes = nodes
 	}
@@ -492,6 +524,20 @@ func main() {
 			emit(Case{Kind: "map", Ops: imapx.Random(r, 60, 3, 3, true)}, "map-random")
 		}
 	}
+	// 1b. map: fill/drain rounds (First on the empty map, First while iterators are parked on removed
+	// head entries, iterators closed in place), short and long
+	nfd, nfdLong, longRounds := 200, 4, 150
+	if thorough {
+		nfd, nfdLong, longRounds = 3000, 40, 300
+	}
+	for i := 0; i < nfd; i++ {
+		r := prng.New(fl.Seed, "C11filldrain", uint64(i))
+		emit(Case{Kind: "map", Ops: imapx.FillDrain(r, 6, 3, 2)}, "map-fill-drain")
+	}
+	for i := 0; i < nfdLong; i++ {
+		r := prng.New(fl.Seed, "C11filldrain-long", uint64(i))
+		emit(Case{Kind: "map", Ops: imapx.FillDrain(r, longRounds, 2, 2)}, "map-fill-drain-long")
+	}
 	// 2. cache: exhaustive short call sequences on capacities 1..3
 	depth := 4
 	if thorough {
@@ -551,6 +597,6 @@ func main() {
 		emit(Case{Kind: "lru", Cap: cap, GSeed: fl.Seed + uint64(cap)*1000003, GLen: n}, "lru-long")
 		emit(Case{Kind: "lru", Cap: cap, GSeed: fl.Seed + uint64(cap)*1000003, GLen: n / 10, GNest: true}, "lru-long-reentrant-concurrent")
 	}
-	s.Close("map histories: all well-formed histories of d state-changing calls over 2 keys / 2 iterators with the probe suffix, and random histories (60 calls, 3 keys, 3 iterators; 150 calls, 5 keys, 8 iterators; 250 calls of churn: entries removed under iterators that are closed later) ending with every iterator closed, the hook's node count checked against Len()+1+open iterators after every call; "+
+	s.Close("map histories: all well-formed histories of d state-changing calls over 2 keys / 2 iterators with the probe suffix, and random histories (60 calls, 3 keys, 3 iterators; 150 calls, 5 keys, 8 iterators; 250 calls of churn: entries removed under iterators that are closed later; fill/drain rounds with First on the empty map, First while iterators are parked on removed head entries and iterators closed in place, 6 rounds and 150 (thorough 300) rounds) ending with every iterator closed, the hook's node count checked against Len()+1+open iterators after every call; "+
 		"cache histories: all sequences of the given depth over {GetOrCreate 1,2,3, failing GetOrCreate, Remove 1,2, Clear} for capacities 1..3, random histories of 100 calls, random histories with calls made re-entrantly from the create function and with batches of concurrent creators (parked inside the create function, released one by one), and long random histories (quick 10^4, thorough 10^5..10^6 calls) for capacities 1..64 with the hook's node count checked <= capacity+1 after every call and the model evaluated on the first 2000 calls; non-trivial = at least 3 calls", false)
 }
